@@ -332,7 +332,11 @@ func Concretise(d Doc, p Pool) []byte {
 				b.WriteString(" viewportanchor=" + p.Viewport[t.Viewport])
 			}
 		case "id":
-			b.WriteString(strconv.Itoa(t.V))
+			if t.V < 0 {
+				b.WriteString("NOTEPAD-7 intro") // a textual cue identifier
+			} else {
+				b.WriteString(strconv.Itoa(t.V))
+			}
 		case "timing":
 			curHrs = t.Hrs // inline timestamps of the cue follow the cue's own choice of writing the hours
 			b.WriteString(fmtTime(t.S, t.Hrs) + " --> " + fmtTime(t.E, t.Hrs))
